@@ -160,9 +160,21 @@ def chk_hubbard_edges_kinds(e0: bool, e1: bool, e2: bool, e3: bool, f0: bool, f1
     return _check_builder(edges, spinful, kind)
 
 
-def _check_siteinfo(edges):
+def _check_siteinfo(edges, phys=True):
     if not edges:
         return True
+    if not phys:
+        # networks without physical legs
+        info = parse_edges_to_site_info(edges, bond_dim=3, phys_dim=None)
+        deg = {}
+        for a, b in edges:
+            deg[a] = deg.get(a, 0) + 1
+            deg[b] = deg.get(b, 0) + 1
+        ok = set(info) == set(deg)
+        for s_, d in deg.items():
+            i = info[s_]
+            ok = ok and i["coordination"] == d and len(i["inds"]) == d and len(i["duals"]) == d and list(i["shape"]) == [3] * d
+        return bool(ok)
     info = parse_edges_to_site_info(edges, bond_dim=3, phys_dim=2)
     deg = {}
     for a, b in edges:
@@ -198,9 +210,9 @@ def chk_site_info(e0: bool, e1: bool, e2: bool, e3: bool, e4: bool, e5: bool, f0
     return _check_siteinfo(_edges((e0, e1, e2, e3, e4, e5), (f0, f1, f2, f3, f4, f5), LABELS["int"]))
 
 
-def chk_site_info_labels(e0: bool, e1: bool, e2: bool, e3: bool, f0: bool, f1: bool, f2: bool, f3: bool, strlab: bool) -> bool:
+def chk_site_info_labels(e0: bool, e1: bool, e2: bool, e3: bool, f0: bool, f1: bool, f2: bool, f3: bool, strlab: bool, phys: bool) -> bool:
     """
     post: _
     """
     lab = LABELS["str"] if strlab else LABELS["tuple"]
-    return _check_siteinfo(_edges((e0, e1, e2, e3, False, False), (f0, f1, f2, f3, False, False), lab))
+    return _check_siteinfo(_edges((e0, e1, e2, e3, False, False), (f0, f1, f2, f3, False, False), lab), phys)
